@@ -169,7 +169,7 @@ def run_cases(case_lines, tag):
                               shell=True, stdout=subprocess.PIPE, stderr=subprocess.STDOUT)
         procs.append((cf, p1, p2))
     impl, model = {}, {}
-    deadline = time.time() + (900 if 'thorough' not in tag else 14400)
+    deadline = time.time() + (600 if 'thorough' not in tag else 14400)
     for cf, p1, p2 in procs:
         try:
             o1, _ = p1.communicate(timeout=max(5, deadline - time.time()))
